@@ -3,7 +3,9 @@
 Model:    lean/DaskModel/Model/Cumulative.lean (TakeLast, cum*_aggregate, CumulativeFinalize — Series path and one
           column of the DataFrame path), lean/DaskModel/Model/Overlap.lean (CreateOverlappingPartitions,
           _combined_parts, overlap_chunk for integer before/after, the before/after rules of Shift/Diff/FFill/BFill/
-          RollingReduction, FillnaCheck for unlimited fills, the windowed row functions).
+          RollingReduction, FillnaCheck for unlimited fills, the windowed row functions), Model/OverlapTime.lean (timedelta
+          `before`), Model/OverlapTime2.lean (timedelta `after`: centered / forward-looking time windows; section toverlap2
+          in props/_c46x_center.py).
 Theorems: lean/DaskModel/Props/C46.lean (cum_eq_pandas, cum_partition_lengths, overlap_local_eq_global,
           mapOverlap_isSome_iff, cum_df_refuted / cum_df_partial).
 Tie:      function level: TakeLast.operation, methods.cum*_aggregate, _combined_parts, the lowered
@@ -17,13 +19,14 @@ import itertools
 from sexp import Sym
 
 from props import _dfrows_util as U
+from props import _c46x_center as XC
 
 U.warm()
 
 PROP = "C46"
 READY = True
 DRIVER = "dm_dfrows"
-LEAN_MODULES = ["DaskModel.Props.C46", "DaskModel.Props.C46Time"]
+LEAN_MODULES = ["DaskModel.Props.C46", "DaskModel.Props.C46Time", "DaskModel.Props.C46xCenter"]
 CASE_TIMEOUT_S = 60
 LEVEL_TEXT = (
     "Proved in Lean for all inputs: (1) cum_eq_pandas — the lowered Series cumsum/cumprod/cummax/cummin "
@@ -41,8 +44,19 @@ LEVEL_TEXT = (
     "_combined_parts, overlap_chunk with before=prev_part_length) computes every (t-W, t]-local row function "
     "(rolling('Ws'), map_overlap(before=Timedelta)) as on the whole frame for every partitioning with truthful divisions "
     "(empty / narrower-than-window partitions included) and never raises. "
+    "(5) time_window_centered_local_eq_global / time_after_local_eq_global (time_overlap2_local_eq_global) — a TIMEDELTA `after` "
+    "(append tasks over the immediate neighbour with 2*after, _head_timedelta_nonempty, the validation of _combined_parts, "
+    "overlap_chunk with after=next_part_length), alone or with a timedelta `before`: rolling('Ws', center=True) and "
+    "map_overlap(before=Timedelta, after=Timedelta) compute every row function local within (t-b, t+a), b <= before, a <= after, as on "
+    "the whole frame for every partitioning with truthful divisions WHENEVER NO TASK RAISES the documented NotImplementedError "
+    "(the code refuses a neighbour it cannot validate); mapOverlapTime2_isSome_iff — it raises EXACTLY when afterOK fails (a non-empty "
+    "partition whose neighbour is an empty non-last partition, or has rows before max+2A but none in [max+A, max+2A)), "
+    "time_window_centered_accepted is the total form; the real raising set is diffed against afterOK on every case. "
+    "Refuted variants: empty_neighbour_unchecked_refuted (the code before fix 52c39fa: an empty neighbour passed the validation and "
+    "the rows after it were silently left out), narrow_neighbour_unvalidated_refuted (validation dropped). "
     "Partial: the DataFrame (2-d) cumulative path is modelled per column and REFUTED (cum_df_refuted; known findings), "
-    "cum_df_partial holds on its complement; centered time windows / a timedelta `after` are validated at API level only; "
+    "cum_df_partial holds on its complement; "
+    "shift(periods, freq=...) lowers to the INTEGER overlap of (2) and is compared with pandas at API level; "
     "pandas' own kernels are specification functions validated against pandas.")
 LEVEL_NOTE = ("Trusted: Lean kernel; the harness' encoding of frames as integer cells (NaN = none); pandas as reference for the "
               "per-partition kernels (cumsum…, shift, ffill, rolling) — every Lean specification function is diffed against "
@@ -52,6 +66,7 @@ ASSUMPTIONS = [
     "pandas Series.cumsum/cumprod/cummax/cummin(skipna) on one partition = cumSkip/cumNo (validated: cumspec vs pandas)",
     "pandas shift/diff/ffill(limit)/bfill(limit)/rolling(w,min_periods,center).sum/count/max on one block = winFn of the g-instances (validated: winspec vs pandas)",
     "pandas rolling('Ws', min_periods).sum/count = twinFn of gTRollSum/gTRollCount (validated: tspec vs pandas); divisions of the collection are truthful (dask's invariant for known divisions)",
+    "pandas rolling('Ws', center=True, min_periods).sum/count and the forward window [t, t+a) (rolling of the time-reversed block) = twinFn2 of gCRollSum/gCRollCount with b = ceil(W/2), a = floor(W/2)+1 in integer seconds (validated: tspec2 vs pandas)",
     "values are integers embedded in float64/int64, times integer seconds; float round-off is outside the theorems",
 ]
 TRUSTED = ["dd.from_map over explicit pandas pieces with known divisions builds the partitioning handed to the real code"]
@@ -633,7 +648,8 @@ def case_toverlap(ctx, inp):
 
 
 CASES = {"takelast": case_takelast, "agg": case_agg, "combined": case_combined, "cum": case_cum,
-         "cumdf": case_cumdf, "overlap": case_overlap, "api": case_api, "toverlap": case_toverlap}
+         "cumdf": case_cumdf, "overlap": case_overlap, "api": case_api, "toverlap": case_toverlap,
+         "toverlap2": XC.case_toverlap2}
 
 
 # ------------------------------------------------------------------------------------------------
@@ -827,6 +843,9 @@ def generate(ctx):
         inp = gen_api(rng)
         if inp is not None:
             yield "api", inp
+    # --- extension round: centered / forward-looking time windows (appended last: earlier rng streams unchanged) ---------
+    for _ in range(ctx.n(60, 1200)):
+        yield "toverlap2", XC.gen_toverlap2(rng)
 
 
 def search(ctx):
